@@ -69,6 +69,12 @@ pub enum D {
     Correct,
     /// wrong in the first / middle / last position
     Wrong(u8),
+    /// the first half of the correct digest
+    Truncated,
+    /// recorded, but empty
+    Empty,
+    /// the correct digest followed by two more characters
+    Extended,
 }
 
 impl D {
@@ -76,7 +82,10 @@ impl D {
         match d {
             0 => D::Absent,
             1 => D::Correct,
-            n => D::Wrong((n - 2) as u8),
+            2..=4 => D::Wrong((d - 2) as u8),
+            5 => D::Truncated,
+            6 => D::Empty,
+            _ => D::Extended,
         }
     }
 }
@@ -103,6 +112,37 @@ fn spoil_bin(mut b: Vec<u8>, pos: u8) -> Vec<u8> {
     b
 }
 
+impl D {
+    /// what to record for a digest whose correct text is `good`
+    pub fn text(&self, good: String) -> Option<String> {
+        match self {
+            D::Absent => None,
+            D::Correct => Some(good),
+            D::Wrong(p) => Some(spoil_hex(good, *p)),
+            D::Truncated => Some(good[..good.len() / 2].to_string()),
+            D::Empty => Some(String::new()),
+            D::Extended => Some(format!("{}00", good)),
+        }
+    }
+    pub fn bin(&self, good: Vec<u8>) -> Option<Vec<u8>> {
+        match self {
+            D::Absent => None,
+            D::Correct => Some(good),
+            D::Wrong(p) => Some(spoil_bin(good, *p)),
+            D::Truncated => Some(good[..good.len() / 2].to_vec()),
+            D::Empty => Some(vec![]),
+            D::Extended => {
+                let mut g = good;
+                g.push(0);
+                Some(g)
+            }
+        }
+    }
+    pub fn is_correct_or_absent(&self) -> bool {
+        matches!(self, D::Absent | D::Correct)
+    }
+}
+
 #[derive(Clone, Copy, Debug)]
 pub struct DigestPlan {
     pub md5: D,
@@ -117,35 +157,22 @@ pub fn with_digests(parts: &Parts, plan: &DigestPlan) -> (Vec<u8>, Layout) {
     let mut p = parts.clone();
     set(&mut p.main, TAG_PAYLOADDIGEST, None);
     set(&mut p.main, TAG_PAYLOADDIGESTALGO, None);
-    match plan.payload {
-        D::Absent => {}
-        D::Correct => {
-            set(&mut p.main, TAG_PAYLOADDIGEST, Some(Val::strs(&[&sha256_hex(&p.payload)])));
-            set(&mut p.main, TAG_PAYLOADDIGESTALGO, Some(Val::Int32(vec![plan.algo])));
-        }
-        D::Wrong(pos) => {
-            set(&mut p.main, TAG_PAYLOADDIGEST, Some(Val::strs(&[&spoil_hex(sha256_hex(&p.payload), pos)])));
-            set(&mut p.main, TAG_PAYLOADDIGESTALGO, Some(Val::Int32(vec![plan.algo])));
-        }
+    if let Some(t) = plan.payload.text(sha256_hex(&p.payload)) {
+        set(&mut p.main, TAG_PAYLOADDIGEST, Some(Val::strs(&[&t])));
+        set(&mut p.main, TAG_PAYLOADDIGESTALGO, Some(Val::Int32(vec![plan.algo])));
     }
     let hbytes = p.main_header().encode();
     set(&mut p.sig, SIGTAG_MD5, None);
     set(&mut p.sig, SIGTAG_SHA1, None);
     set(&mut p.sig, SIGTAG_SHA256, None);
-    match plan.md5 {
-        D::Absent => {}
-        D::Correct => set(&mut p.sig, SIGTAG_MD5, Some(Val::Bin(md5_raw(&[&hbytes, &p.payload])))),
-        D::Wrong(pos) => set(&mut p.sig, SIGTAG_MD5, Some(Val::Bin(spoil_bin(md5_raw(&[&hbytes, &p.payload]), pos)))),
+    if let Some(b) = plan.md5.bin(md5_raw(&[&hbytes, &p.payload])) {
+        set(&mut p.sig, SIGTAG_MD5, Some(Val::Bin(b)));
     }
-    match plan.sha1 {
-        D::Absent => {}
-        D::Correct => set(&mut p.sig, SIGTAG_SHA1, Some(Val::str(&sha1_hex(&hbytes)))),
-        D::Wrong(pos) => set(&mut p.sig, SIGTAG_SHA1, Some(Val::str(&spoil_hex(sha1_hex(&hbytes), pos)))),
+    if let Some(t) = plan.sha1.text(sha1_hex(&hbytes)) {
+        set(&mut p.sig, SIGTAG_SHA1, Some(Val::str(&t)));
     }
-    match plan.sha256 {
-        D::Absent => {}
-        D::Correct => set(&mut p.sig, SIGTAG_SHA256, Some(Val::str(&sha256_hex(&hbytes)))),
-        D::Wrong(pos) => set(&mut p.sig, SIGTAG_SHA256, Some(Val::str(&spoil_hex(sha256_hex(&hbytes), pos)))),
+    if let Some(t) = plan.sha256.text(sha256_hex(&hbytes)) {
+        set(&mut p.sig, SIGTAG_SHA256, Some(Val::str(&t)));
     }
     p.join()
 }
